@@ -152,7 +152,7 @@ func collGen(r *rand.Rand, tier string, b collBias) collInput {
 			}
 			if t.live {
 				t.count++
-				t.size += s.Pad + 30
+				t.size += s.Pad + 25
 				mark, to := false, sd
 				if s.Root {
 					mark, t.hasRoot = true, true
